@@ -12,8 +12,8 @@ and `_remapping` are empty for the three lexers; token functions never move `sel
 (correspondence stream `slylex` compares token boundaries with the real lexer); token *values* and
 line numbers are outside this model (`Model/Lex.lean`, `Model/TokStr.lean`, `Model/Err.lean`).
 
-SLY itself has no guard against a rule that matches the empty string: `index` would not move and the
-loop would never end.  The model reports that as `hang`; `C02Lex` proves it cannot happen for rules that
+SLY's only guard against a rule that matches the empty string is `_build`'s test on the EMPTY text
+(`cpat.match('')`); a rule that is empty only in context passes it, `index` would not move and the loop would never end.  The model reports that as `hang`; `C02Lex` proves it cannot happen for rules that
 pass `nonNull`, which the kernel decides on the regenerated rule list.
 -/
 namespace MindsVerif.SlyLex
